@@ -148,6 +148,8 @@ def parse_eval(out):
 
 def parse_nat_list(s):
     s = s.strip()
+    if s == 'nil':
+        return []
     m = re.fullmatch(r'\[(.*)\]', s)
     if not m:
         raise ValueError('not a list: ' + s[:200])
@@ -167,7 +169,7 @@ def coq_cases(prop, name, imports, body, evals, timeout=900):
     d = os.path.join(COQ, 'Cases', prop)
     os.makedirs(d, exist_ok=True)
     path = os.path.join(d, name + '.v')
-    text = imports + '\n' + body + '\n' + '\n'.join(
+    text = imports + '\nFrom Coq Require Import List. Import ListNotations.\n' + body + '\n' + '\n'.join(
         f'Eval vm_compute in ({e}).' for e in evals) + '\n'
     with open(path, 'w') as f:
         f.write(text)
